@@ -561,3 +561,67 @@ pub fn gen_delete(rng: &mut Rng, sw: &Swarm, sut: &Sut, def: &TableDef, o: PredO
     let pred = gen_dml_pred(rng, sw, sut, def, o);
     Op::delete(&def.name, pred)
 }
+
+/// Parent/child schemas: t0 parent; t1 child of t0; optionally t2 = grandchild (-> t1) or second child
+/// (-> t0); optionally a self-reference inside t0. Keys are single INTEGER primary keys.
+pub fn gen_fk_tables(rng: &mut Rng, sw: &Swarm) -> Vec<TableDef> {
+    let acts = [None, Some(FkAction::NoAction), Some(FkAction::Restrict), Some(FkAction::Cascade), Some(FkAction::Cascade), Some(FkAction::SetNull)];
+    let mk = |name: &str, extra: usize| -> TableDef {
+        let mut cols = vec![ColDef { name: "c0".into(), ty: Ty::Int, not_null: true }];
+        for i in 0..extra {
+            cols.push(ColDef { name: format!("c{}", i + 1), ty: Ty::Int, not_null: false });
+        }
+        TableDef { name: name.into(), cols, pk: vec![0], ..Default::default() }
+    };
+    let mut out = Vec::new();
+    let mut t0 = mk("t0", 2);
+    if rng.chance(1, 4) {
+        t0.fks.push(Fk { col: 1, parent: "t0".into(), parent_col: "c0".into(), on_delete: *rng.pick(&acts), on_update: *rng.pick(&acts) });
+    }
+    out.push(t0);
+    let mut t1 = mk("t1", 2);
+    t1.fks.push(Fk { col: 1, parent: "t0".into(), parent_col: "c0".into(), on_delete: *rng.pick(&acts), on_update: *rng.pick(&acts) });
+    out.push(t1);
+    if sw.n_tables >= 2 {
+        let mut t2 = mk("t2", 2);
+        let parent = if rng.chance(1, 2) { "t1" } else { "t0" };
+        t2.fks.push(Fk { col: 1, parent: parent.into(), parent_col: "c0".into(), on_delete: *rng.pick(&acts), on_update: *rng.pick(&acts) });
+        out.push(t2);
+    }
+    out
+}
+
+/// Make the FK columns of a generated INSERT mostly valid: existing parent key, NULL, or (fault) an
+/// orphan value at a seeded row.
+pub fn fk_adjust_insert(rng: &mut Rng, sut: &Sut, world: &World, def: &TableDef, op: Op) -> Op {
+    if !op.cols.is_empty() && op.cols.iter().any(|c| c == "nosuchcol") {
+        return op;
+    }
+    let mut rows = op.rows.clone();
+    let mut note = op.fault.clone();
+    let n = rows.len();
+    let bad = if rng.chance(1, 6) { Some(rng.usize(n)) } else { None };
+    for f in &def.fks {
+        let pdef = match world.tables.get(&f.parent) {
+            Some(p) => p,
+            None => continue,
+        };
+        let pc = pdef.col_index(&f.parent_col).unwrap_or(0);
+        let keys = existing_values(sut, &f.parent, pc);
+        for (i, r) in rows.iter_mut().enumerate() {
+            if r.len() <= f.col {
+                continue;
+            }
+            if Some(i) == bad {
+                let m = keys.iter().filter_map(|k| if let Lit::Int(x) = k { Some(*x) } else { None }).filter(|x| *x < 1 << 40).max().unwrap_or(0);
+                r[f.col] = Lit::Int(m + 7);
+                note = format!("fk-orphan@{}/{}", i + 1, n);
+            } else if keys.is_empty() || rng.chance(1, 6) {
+                r[f.col] = Lit::Null;
+            } else {
+                r[f.col] = rng.pick(&keys).clone();
+            }
+        }
+    }
+    Op::insert(&def.name, &op.cols, rows).fault(&note)
+}
